@@ -383,8 +383,9 @@ def _shapes_heur(tier, prop=None):
         S.append(_group("adhoc-secp-hint-pair", [c("adhoc", "pair", FG, 2, hints="secp", max_perms=2)]))
         S.append(_group("adhoc-chain3", [c("adhoc", "chain3", PT, 2, max_perms=3)]))
         S.append(_group("adhoc-pair-factor-graph", [c("adhoc", "pair", FG, 2, max_perms=3)]))
-        S.append(_group("adhoc-more", [c("adhoc", "tern", HG, 3, hints="must_all"), c("adhoc", "iso", OG, 3, max_perms=2),
-                                       c("adhoc", "chain3", FG, 3, hints="secp_must", max_perms=2)]))
+        S.append(_group("adhoc-more-tern", [c("adhoc", "tern", HG, 3, hints="must_all")]))
+        S.append(_group("adhoc-more-iso", [c("adhoc", "iso", OG, 3, max_perms=2)]))
+        S.append(_group("adhoc-more-chain3", [c("adhoc", "chain3", FG, 2, hints="secp_must", max_perms=2)]))
     return S
 
 
